@@ -481,7 +481,7 @@ def run(ctx, replay=None):
     rng = ctx.rng
     # ---------------- unit step ----------------------------------------------------------------
     if replay is None:
-        qcases = [gen_quant_case(rng) for _ in range(ctx.n(500, 8000))]
+        qcases = [gen_quant_case(rng) for _ in range(ctx.n(1000, 10000))]
     elif replay.get("kind") == "quantile":
         qcases = [{k: v for k, v in replay.items() if k not in ("impl_quantile", "impl_order")}]
     else:
@@ -490,7 +490,7 @@ def run(ctx, replay=None):
 
     # ---------------- sequences ----------------------------------------------------------------
     if replay is None:
-        specs = [(gen_seq_spec(rng), None) for _ in range(ctx.n(260, 5000))]
+        specs = [(gen_seq_spec(rng), None) for _ in range(ctx.n(450, 6000))]
     elif replay.get("kind") == "sequence":
         specs = [(replay["spec"], replay.get("events"))]
     else:
